@@ -169,7 +169,7 @@ let dkind_name = function
   | DFieldNotAllowed -> "field_not_allowed" | DMissingFields -> "missing_fields" | DConfigKey -> "config_key"
   | DBranchTooFar -> "branch_too_far" | DInvalidInstruction -> "invalid_instruction" | DUnknownIdentifier -> "unknown_identifier"
   | DNotInteger -> "not_integer" | DNotString -> "not_string" | DEval e -> "eval:" ^ everr_name e | DImportDefined -> "import_defined" | DAlign -> "align"
-  | DInvalidName -> "invalid_name" | DNotConverged -> "not_converged" | DPcRange -> "pc_range"
+  | DInvalidName -> "invalid_name" | DNotConverged -> "not_converged" | DPcRange -> "pc_range" | DSegmentHasCode -> "segment_has_code"
 let fault_name = function FFuel -> "fuel" | FPanic -> "panic" | FUnsupported -> "unsupported" | FDiverge -> "diverge"
 let symtype_name = function
   | TyLabel -> "label" | TyTestCase -> "test" | TyMacroArgument -> "macroarg" | TyConstant -> "const" | TyVariable -> "var"
